@@ -136,7 +136,12 @@ pub struct Found {
     pub msg: String,
     pub gen_tape: Vec<u64>,
     pub sched_tape: Vec<u64>,
+    /// run indices the same worker thread executed before this one (most recent last, capped): the
+    /// history to re-execute when the violation depends on state the library keeps inside the process
+    pub prefix: Vec<u64>,
 }
+
+pub const PREFIX_CAP: usize = 512;
 
 pub struct BatchResult {
     pub evaluations: u64,
@@ -206,6 +211,7 @@ pub fn run_batch(spec: &PropertySpec, seed: u64, thorough: bool, runs: u64, max_
             let stop = stop.clone();
             let acc = acc.clone();
             let slots = slots.clone();
+            let mut mine: Vec<u64> = Vec::new();
             sc.spawn(move || loop {
                 if stop.load(Ordering::Relaxed) {
                     break;
@@ -258,10 +264,16 @@ pub fn run_batch(spec: &PropertySpec, seed: u64, thorough: bool, runs: u64, max_
                         msg: msg.clone(),
                         gen_tape: r.gen_tape.clone(),
                         sched_tape: r.report.sched_tape.clone(),
+                        prefix: mine.clone(),
                     });
                     if a.found.len() > 2000 {
                         stop.store(true, Ordering::Relaxed);
                     }
+                }
+                drop(a);
+                mine.push(i);
+                if mine.len() > PREFIX_CAP {
+                    mine.remove(0);
                 }
             });
         }
@@ -288,12 +300,17 @@ pub const HANG_SECS: u64 = 90;
 /// replay file that names a run by (seed, index) only - used when the run cannot be completed
 /// in-process (hang, abort)
 pub fn write_seed_replay(id: &str, seed: u64, index: u64, thorough: bool, class: &str, msg: &str) -> String {
+    write_history_replay(id, seed, index, &[], thorough, class, msg)
+}
+
+/// like `write_seed_replay`, with the runs to execute first (same thread, same process, in order)
+pub fn write_history_replay(id: &str, seed: u64, index: u64, prefix: &[u64], thorough: bool, class: &str, msg: &str) -> String {
     let out_dir = format!("{}/out/replay", std::env::var("VERIF_DIR").unwrap_or_else(|_| "/verif".into()));
     let _ = std::fs::create_dir_all(&out_dir);
     let name = format!("{}/{}-{}-{}.json", out_dir, id, seed, index);
     let v = serde_json::json!({
         "property": id, "class": class, "message": msg, "seed": seed, "run_index": index,
-        "thorough": thorough, "from_seed": true,
+        "thorough": thorough, "from_seed": true, "prefix_indices": prefix,
     });
     let _ = std::fs::write(&name, serde_json::to_string_pretty(&v).unwrap());
     name
@@ -456,8 +473,14 @@ pub fn replay_file(spec_for: &dyn Fn(&str) -> Option<&'static PropertySpec>, pat
     let thorough = v["thorough"].as_bool().unwrap_or(false);
     let r = if v["from_seed"].as_bool().unwrap_or(false) {
         let idx = v["run_index"].as_u64().unwrap_or(0);
+        let seed = v["seed"].as_u64().unwrap_or(0);
+        // the history this run depends on, if any: executed first, on this same thread
+        for p in tape("prefix_indices") {
+            crate::alloc::set_run(p);
+            let _ = run_seeded(spec, seed, p, thorough, false);
+        }
         crate::alloc::set_run(idx);
-        run_seeded(spec, v["seed"].as_u64().unwrap_or(0), idx, thorough, true)
+        run_seeded(spec, seed, idx, thorough, true)
     } else {
         run_tapes(spec, &tape("gen_tape"), &tape("sched_tape"), thorough, true, trace)
     };
